@@ -61,6 +61,7 @@ def _case(draw):
         ng = draw(S.ints(1, 4))
         c['weights'] = draw(st.lists(st.floats(0.05, 1.0), min_size=ng, max_size=ng))
         c['gfac'] = draw(st.lists(st.floats(-1.0, 1.0), min_size=ng, max_size=ng))
+        c['kdesc'] = draw(st.booleans())
     if part == 'cia':
         c['table'] = draw(_table(nwn=draw(S.ints(4, 7))))      # room for two wavenumber ranges
         c['pair'] = draw(st.sampled_from(['H2-H2', 'H2-He', 'N2-N2', 'CO2-CO2']))
@@ -215,6 +216,12 @@ def check_ktable(out, c, tmp):
     w = np.array(c['weights'], dtype=float)
     w = w / w.sum()
     k = tab[..., None] * (10.0 ** np.array(c['gfac'], dtype=float))[None, None, None, :]
+    if c.get('kdesc'):
+        # the table is stored in wavelength order (wavenumbers descending): axes stay oriented as in the file, every
+        # coefficient still belongs to its own bin and quadrature point
+        out.cls('ktable:descending-wavenumbers')
+        wn = wn[::-1].copy()
+        k = k[:, :, ::-1, :].copy()
     p1 = os.path.join(tmp, '%s.R100.ktable.TauREx.pickle' % plain)
     with open(p1, 'wb') as f:
         pickle.dump({'bin_centers': wn, 'ngauss': len(w), 't': Tg, 'p': P_pa / 1e5, 'kcoeff': k, 'weights': w, 'name': plain}, f)
@@ -235,6 +242,7 @@ def check_ktable(out, c, tmp):
     for fmt, op in (('ktable-pickle', a), ('ktable-hdf5', b)):
         out.applies('grids')
         if not close(np.asarray(op.pressureGrid, dtype=float), P_pa, rtol=1e-12) or \
+                not np.array_equal(np.asarray(op.wavenumberGrid, dtype=float), wn) or \
                 not close(np.asarray(op.weights, dtype=float), w, rtol=1e-15) or op.moleculeName != plain:
             out.fail('grids@' + fmt, 'pressure (Pa) / weights / molecule name differ from what was written')
             continue
